@@ -6,7 +6,7 @@ from vlib import ref_cone as rc, gen_cone as gc, judge, runlp
 from checks import c03
 
 DEF = dict(kkt=None, solver=None, start="none", opts={})
-KNOWN = {"chol2-limit-singular": False}
+KNOWN = {"chol2-limit-singular": False, "coneqp-gap-cycling": False}
 
 
 def known_chol2(mat, qp, dims):
@@ -37,10 +37,15 @@ def case_strategy(draw):
         prob = draw(gc.cone_case(kind=kind, kinds=kinds))
     else:
         kind = "feas"
-        prob = draw(gc.cone_case(kind="feas", kinds=kinds, qp=True))
+        if draw(st.integers(0, 5)) == 0:
+            # QP without inequality constraints (coneqp solves one KKT system directly)
+            prob = draw(gc.cone_case(kind="feas", dims={"l": 0, "q": [], "s": []}, qp=True))
+        else:
+            prob = draw(gc.cone_case(kind="feas", kinds=kinds, qp=True))
     paths = draw(st.lists(st.tuples(st.sampled_from(["conelp", "wrapper"] + (["cp"] if family == "qp" else [])),
                                     st.booleans(), st.booleans()), min_size=2, max_size=2, unique=True))
-    return dict(family=family, prob=prob, paths=[list(p) for p in paths])
+    return dict(family=family, prob=prob, paths=[list(p) for p in paths],
+                Pjunk=draw(st.sampled_from([0.0, 0.0, 5.5, -100.0])), omitG=draw(st.booleans()))
 
 
 def wrapper_for(dims):
@@ -135,7 +140,8 @@ def oracle(case, stats=None):
             continue
         if qp:
             cfg = dict(entry="qp" if (path == "wrapper" and not dims["q"] and not dims["s"]) else "coneqp",
-                       kkt=None, form="matrix", opts={}, init=None, spP=spG, spG=spG, spA=spA, Pjunk=0.0, omitG=False)
+                       kkt=None, form="matrix", opts={}, init=None, spP=spG, spG=spG, spA=spA,
+                       Pjunk=case.get("Pjunk", 0.0), omitG=case.get("omitG", False))     # only the lower triangle of P is referenced
             entry = cfg["entry"]
             try:
                 sol = c03.call_qp(cfg, mat)
@@ -164,6 +170,12 @@ def oracle(case, stats=None):
                         if stats is not None:
                             stats.exclude("chol2-limit-singular")
                         return
+                    if qp and KNOWN.get("coneqp-gap-cycling"):
+                        from vlib import known
+                        if known.coneqp_gap_cycling(sol):
+                            if stats is not None:
+                                stats.exclude("coneqp-gap-cycling")
+                            return
                     raise Violation("%s ended 'unknown' on a well-posed instance with pres %.2e dres %.2e gap %.2e "
                                     "(iterations %r)" % (entry, r["pres"], r["dres"], r["gap"], sol.get("iterations")))
                 labels.append("unknown_but_accurate")
@@ -190,6 +202,12 @@ def oracle(case, stats=None):
             if hi < d0 - 1e-9 * (1 + abs(d0)):
                 raise Violation("%s: primal objective %.9g below the planted dual bound %.9g (bound slack %.2e)" % (
                     entry, r["pcost"], d0, e_sol))
+            # the objective the solver reports is the objective of the point it returns
+            for fld, val, sc in (("primal objective", r["pcost"], r["pcost_scale"]), ("dual objective", r["dcost"], r["dcost_scale"] + r.get("gap_scale", 0.0))):
+                rep = sol.get(fld)
+                if status == "optimal" and judge.isnum(rep) and not (lo - 1e-6 * (1 + abs(val)) <= rep <= hi + 1e-6 * (1 + abs(val))):
+                    raise Violation("%s: reported %r = %.9g lies outside the weak-duality bracket [%.9g, %.9g] of the returned point" % (
+                        entry, fld, rep, lo, hi))
             results.append((entry, lo, hi, r["pcost"]))
         elif kind == "pinf":
             if status != "primal infeasible":
